@@ -19,6 +19,7 @@
 #include "ref/zckref.hpp"
 #include "lib/zcklib.hpp"
 #include "gen/gens.hpp"
+#include "lib/tools.hpp"
 
 using pbt::Ctx; using pbt::Bytes;
 
@@ -126,6 +127,28 @@ static void prop(Ctx &c) {
     }
     zck_free(&ctx); close(fd);
     if (!fsig.empty()) c.fail(fsig, fmsg);
+    // ---- the command-line front end of the scan: `zck_read_header --verify` under every combination of its other options must
+    // report overall success (exit status 0) exactly when the scan does, and its per-chunk markers (-c) must be the scan's flags
+    if (c.gver >= 4 && !tools::tool_path("zck_read_header").empty() && c.rarely(16)) {
+        std::vector<std::string> args; std::string shown; bool q = c.boolean(), sc = c.boolean(); size_t nv = c.rarely(3) ? 1 + c.draw(3) : 0;
+        if (c.boolean()) { std::string o = "-"; if (q) o += "q"; for (size_t i = 0; i < nv; i++) o += "v"; o += "f"; if (sc) o += "c"; args.push_back(o); }
+        else { if (q) args.push_back(c.boolean() ? "-q" : "--quiet"); for (size_t i = 0; i < nv; i++) args.push_back("-v"); args.push_back(c.boolean() ? "-f" : "--verify"); if (sc) args.push_back(c.boolean() ? "-c" : "--show-chunks"); if (c.boolean()) std::reverse(args.begin(), args.end()); }
+        for (auto &a : args) shown += a + " "; args.push_back("t.zck");
+        tools::Dir d("c09"); d.put("t.zck", T); tools::Run r = tools::run(tools::tool_path("zck_read_header"), args, d.path);
+        c.label("tool:zck_read_header"); c.desc << " ; zck_read_header " << shown;
+        if (r.exit_code == 126) c.fail("tool-missing", "cannot run " + tools::tool_path("zck_read_header"));
+        if (r.abnormal()) { c.label("tool-abnormal-termination(C03's business)"); return; }
+        if ((r.exit_code == 0) != (expect_ret == 1)) c.fail("tool-verdict", "zck_read_header " + shown + "exits " + std::to_string(r.exit_code) + " on a target whose scan " + (expect_ret == 1 ? "finds every checksum matching" : "does not succeed (chunks on disk: " + vstr(expect) + ")"));
+        if (sc) {       // chunk lines: "<number> <digest> [<udigest>] <start> <comp size> <size>[  +|  !]"
+            std::vector<int> marks; size_t p = 0; bool table = false;
+            while (p < r.out.size()) { size_t e = r.out.find('\n', p); if (e == std::string::npos) e = r.out.size(); std::string line = r.out.substr(p, e - p); p = e + 1;
+                if (line.find("Chunk Checksum") != std::string::npos) { table = true; continue; } if (!table || line.empty() || line.find("checksums") != std::string::npos) continue;
+                marks.push_back(line.size() >= 3 && line.compare(line.size() - 3, 3, "  +") == 0 ? 1 : line.size() >= 3 && line.compare(line.size() - 3, 3, "  !") == 0 ? -1 : 0); }
+            std::vector<int> want = expect; if (detached) for (size_t i = 1; i < n; i++) want[i] = 0;
+            if (marks.size() == n && marks != want) c.fail("tool-chunk-marks", "zck_read_header " + shown + "marks the chunks " + vstr(marks) + ", the bytes on disk give " + vstr(want));
+            if (marks.size() == n) c.label("tool-chunk-marks-compared");
+        }
+    }
 }
 
 PBT_MAIN("C09", prop, nullptr)
